@@ -489,27 +489,6 @@ def py_fail_c10(case, sq0, sq1, shared, dis):
     code = base()
     if code == 0:
         return 0
-    pairs = [(u, v) for (u, v), b in nx.get_edge_attributes(sq0, 'bonding').items() if b[0].startswith('!')]
-    parent = {}
-
-    def find(x):
-        while parent.get(x, x) != x:
-            x = parent[x]
-        return x
-    for u, v in pairs:
-        a, b = find(u), find(v)
-        if a == b:
-            return 11
-        parent[b] = a
-    sq, dead = {}, set()
-    for u, v in pairs:
-        keep, rm = sq.get(u, u), sq.get(v, v)
-        if keep in dead or rm in dead:
-            return 13
-        if keep == rm:
-            break
-        sq[rm] = keep
-        dead.add(rm)
     if sq1 is not None:
         from pysmiles.smiles_helper import valence
         for n, d in sq1.nodes(data=True):
@@ -541,9 +520,6 @@ class C10(common.Prop):
     thorough_cases = 2500
     extended_cases = 600
     fail_text = {1: 'the overlapping description does not resolve although the disjoint one does',
-                 11: 'the overlapping description does not resolve (class redundant-squash-cycle: the `!` pairs close a cycle over one atom)',
-                 13: 'the overlapping description does not resolve (class stale-squashed-entry: the `squashed` dict names an atom that '
-                     'an earlier contraction removed)',
                  12: 'the overlapping description raises or resolves to a different molecule (class stale-hcount-aromatic: a merged '
                      'aromatic atom keeps the hydrogen count of one copy, which pysmiles\' aromaticity correction then reads)',
                  2: 'atoms were merged that are not copies of the same atom (or an atom lost its origin)',
@@ -557,9 +533,10 @@ class C10(common.Prop):
         import random
         rng = random.Random(12345)
         out = []
-        for f in common.load_known_findings().get('findings', []):
+        kf = common.load_known_findings()
+        for f in kf.get('findings', []) + kf.get('fixed', []):
             if f.get('property') == 'C10' and isinstance(f.get('witness'), dict):
-                out.append(dict(f['witness'], cls='known-finding-witness'))
+                out.append(dict(f['witness'], cls='known-finding-witness' if 'commit' not in f else 'fixed-finding-witness'))
         return out + [gen_case(rng, force=m) for m in ('star', 'chain', 'clique', 'star', 'chain')]
 
     def generate(self, ctx, n):
@@ -609,7 +586,7 @@ class C10(common.Prop):
 
     def known_class(self, case, impl, code):
         """the class predicates are evaluated in Coq (SquashCheck.raise_code) and arrive as the code"""
-        return {11: 'redundant-squash-cycle', 12: 'stale-hcount-aromatic', 13: 'stale-squashed-entry'}.get(code)
+        return {12: 'stale-hcount-aromatic'}.get(code)
 
     def coq_case(self, case, impl):
         if 'skip' in impl:
